@@ -108,13 +108,15 @@ POSITIONS: dict[str, tuple[str, Any, list]] = {
     "map": ("Hmap", {"m": {"k": "$P"}}, ["m", "k"]),            # m: inline additionalProperties $ref Pet
     "nmap": ("Hnmap", {"m": {"k": "$P"}}, ["m", "k"]),          # m: $ref PetMap (NAMED map of $ref Pet)
     "rows": ("Hrows", {"rows": [["$P"]]}, ["rows", 0, 0]),      # rows: array of arrays of $ref Pet
+    "ifield": ("Hifield", {"u": "$P"}, ["u"]),                  # u: the union schema declared INLINE at the property
+    "ilist": ("Hilist", {"items": ["$P"]}, ["items", 0]),       # items: array of the INLINE union schema
     "opt": ("Hopt", {"u": "$P"}, ["u"]),                        # u: $ref Pet, not required
     "olist": ("Hopt", {"items": ["$P"]}, ["items", 0]),         # items: inline array, not required
 }
 # the second union of a "pair" document (same variants, reversed order, no discriminator) and where it is used
 PAIR_POSITIONS = [("PetB", "$P"), ("Bfield", {"u": "$P"}), ("Blist", {"items": ["$P"]}), ("Bopt", {"u": "$P"}), ("Bopt", {"items": ["$P"]}), ("Brows", {"rows": [["$P"]]}), ("Bnlist", {"items": ["$P"]})]
 BASE_POSITIONS = ["top", "field", "list"]
-EXTRA_POSITIONS = ["nlist", "nlist_top", "map", "nmap", "rows", "opt", "olist"]
+EXTRA_POSITIONS = ["nlist", "ifield", "nlist_top", "map", "ilist", "nmap", "rows", "opt", "olist"]
 
 
 def fill(template: Any, payload: Any) -> Any:
